@@ -53,6 +53,26 @@ def translate():
     step("uamiv/Write.ncf2uamiv.spc_hdr['SPAD1']", lambda: uw.assign_expr('ncf2uamiv', "spc_hdr['SPAD1']", 'uw_spc_pad', ['nspec'])[0])
     step("uamiv/Write.ncf2uamiv.time_hdr['SPAD']", lambda: uw.assign_expr('ncf2uamiv', "time_hdr['SPAD']", 'uw_time_pad', [])[0])
     step('uamiv/Write.ncf2uamiv.date_s', lambda: uw.assign_expr('ncf2uamiv', 'date_s', 'uw_date2', ['date_s'], index=0)[0])
+
+    # ---- met / boundary writers: record pads (must equal the byte count of the payload that follows)
+    def mod(rel):
+        return P.Module(os.path.join(R, rel))
+    tw = mod('temperature/Write.py')
+    step('temperature/Write.ncf2temperature.nelem', lambda: tw.assign_expr('ncf2temperature', 'nelem', 'tw_nelem', ['nr', 'nc'])[0])
+    ow = mod('one3d/Write.py')
+    step('one3d/Write.ncf2one3d.buf', lambda: ow.assign_expr('ncf2one3d', 'buf', 'ow_buf', ['v2d_size'])[0])
+    hw = mod('height_pressure/Write.py')
+    step('height_pressure/Write.ncf2height_pressure.buf', lambda: hw.assign_expr('ncf2height_pressure', 'buf', 'hw_buf', ['h2d_size'])[0])
+    ww = mod('wind/Write.py')
+    step('wind/Write.ncf2wind.buf[0]', lambda: ww.assign_expr('ncf2wind', 'buf', 'ww_buf_hdr', [], index=0)[0])
+    step('wind/Write.ncf2wind.buf[1]', lambda: ww.assign_expr('ncf2wind', 'buf', 'ww_buf_data', ['vals_size'], index=1)[0])
+    lw = mod('lateral_boundary/Write.py')
+    step('lateral_boundary/Write.buf[0]', lambda: lw.assign_expr('ncf2lateral_boundary', 'buf', 'lw_buf_edge', ['nbcell'], index=0)[0])
+    step('lateral_boundary/Write.buf[1]', lambda: lw.assign_expr('ncf2lateral_boundary', 'buf', 'lw_buf_data', ['data_size'], index=1)[0])
+    lm = mod('lateral_boundary/Memmap.py')
+    step('lateral_boundary/Memmap.data_block_size', lambda: lm.assign_expr('lateral_boundary.readheader', 'data_block_size', 'lm_data_block_size',
+                                                                           ['date_time_block_size', 'nspec', 'spc_lat_block_size'])[0])
+    step('lateral_boundary/Memmap.date_time_block_size', lambda: lm.assign_expr('lateral_boundary.readheader', 'date_time_block_size', 'lm_date_time_block_size', [])[0])
     text = ''.join(out)
     P.write_if_changed(os.path.join(C.COQ, 'Gen', 'Camx.v'), text)
     return res
